@@ -178,9 +178,26 @@ def dataset_stream(ex, n, exhaustive):
                 yield D
     for _ in range(n):
         yield respell(ex.rng, std_dataset(ex.rng))
+    if getattr(ex, 'wild', False):
+        # secondary stream: files that are not encodings of histories (gen.wild_dataset).  The loader and its model must
+        # agree on them too (accepted / rejected with the same exception class; same hierarchy, genomes, genes), and
+        # wherever the model's result is well-formed the literal clauses of C02 are checked on pyham's objects.
+        for _ in range(max(20, n // 5)):
+            ex.res.count('wild_files')
+            yield gen.wild_dataset(ex.rng)
+    if getattr(ex, 'species_level', False):
+        # secondary stream (C01 / C20 only): gene references wrapped into species-level groups (TaxRange = species name,
+        # optionally with an in-paralog).  pyham dissolves such groups while loading; outside the spelled-history
+        # domain, so only "no referenced gene lost, duplicated or moved" and the model's members are checked.
+        for _ in range(max(10, n // 6)):
+            D = gen.species_wrap(ex.rng, std_dataset(ex.rng))
+            ex.res.count('species_level_group_files')
+            yield D
 
-def explore_load(prop, tier, seed, oracle, tags, n_quick, emit=(), with_truth=False, pyobs=None):
+def explore_load(prop, tier, seed, oracle, tags, n_quick, emit=(), with_truth=False, pyobs=None, species_level=False, wild=True):
     ex = Explorer(prop, tier, seed)
+    ex.species_level = species_level
+    ex.wild = wild
     n = budget(tier, n_quick)
     for k, D in enumerate(dataset_stream(ex, n, tier == 'thorough' and prop in ('C02', 'C03'))):
         cid = '%s-%d' % (prop, k)
@@ -193,6 +210,20 @@ def explore_load(prop, tier, seed, oracle, tags, n_quick, emit=(), with_truth=Fa
                 ex.fail(cid, D, ['repository fixture %s: %s: %s' % (D.meta['corpus'], type(e).__name__, e)])
                 continue
             ex.submit(cid, D, o.tags, [t for t in tags if t != 'agname' or True], emit=emit, extra=o, hist=False)
+            continue
+        if D.meta.get('wild'):
+            o = ob.Obs()
+            try:
+                h = core.load_py(D)
+                o.put('load', 'ok'); ob.observe_load(h, o)
+                o.wild_problems = orc.wf_problems(h) + list(o.problems)
+                o.wild_literal = orc.wf_problems(h, literal=True) + list(o.problems)
+                ex.res.count('wild_files_loaded')
+            except Exception as e:      # noqa
+                o.put('load', 'err:' + ob.err_name(e))
+                o.wild_problems = []; o.wild_literal = []
+                ex.res.count('wild_files_rejected')
+            ex.submit(cid, D, o.tags, ['load', 'genes', 'members', 'forest', 'genomes'], extra=o, hist=False)
             continue
         h = load_or_fail(ex, cid, D)
         if h is None:
@@ -212,7 +243,16 @@ def explore_load(prop, tier, seed, oracle, tags, n_quick, emit=(), with_truth=Fa
         out = []
         # echo of the theorems' hypotheses / conclusions, evaluated by the model on this case:
         # WF (C02) + registration exact + genome sizes exact (C04), and "the family realises its history" (C03)
-        if D.meta.get('corpus'):
+        if D.meta.get('wild'):
+            # where the model (= the unchanged loader) yields a well-formed analysis, pyham's objects must satisfy C02
+            if L.get('wf') and L['wf'][0][0] == '1' and getattr(o, 'wild_problems', None):
+                ex.fail(cid, D, ['file outside the history domain, well-formed according to the model: ' + x for x in o.wild_problems[:4]])
+            elif L.get('wflit') == ['1'] and getattr(o, 'wild_literal', None):
+                ex.fail(cid, D, ['file outside the history domain; the model satisfies the level / event / flag clauses of C02, pyham does not: ' + x for x in o.wild_literal[:4]])
+            if L.get('wflit') == ['1']:
+                ex.res.count('wild_files_checked_against_C02_literally')
+            return out
+        if D.meta.get('corpus') or D.meta.get('species_level'):
             return out
         if L.get('wf') not in (None, ['111']):
             out.append(('model-wf-regExact-sizesExact', [], L.get('wf')))
@@ -231,7 +271,7 @@ def explore_load(prop, tier, seed, oracle, tags, n_quick, emit=(), with_truth=Fa
     return ex.res
 
 def c01(tier, seed):
-    return explore_load('C01', tier, seed, orc.c01, ['load', 'genes', 'members'], 900)
+    return explore_load('C01', tier, seed, orc.c01, ['load', 'genes', 'members'], 900, species_level=True)
 
 def c02(tier, seed):
     def pyobs(h, o):
@@ -349,7 +389,9 @@ def explore_profiles(prop, tier, seed, n_quick):
             ex.res.count('cases_no_family_at_root')
         if D.meta.get('undeclared_species') or any(not g for _, g in D.species):
             ex.res.count('cases_with_geneless_species')
-        h = load_or_fail(ex, cid, D)
+        phylo = ex.rng.random() < 0.25      # TreeProfile re-reads a PhyloXML tree file: another code path
+        ex.res.count('tree_as_phyloxml_file' if phylo else 'tree_as_newick_string')
+        h = load_or_fail(ex, cid, D, **(dict(phyloxml_dir=ex.tmp) if phylo else {}))
         if h is None:
             continue
         o = ob.Obs(); o.put('load', 'ok')
@@ -368,8 +410,9 @@ def explore_profiles(prop, tier, seed, n_quick):
                         walkj(c, p + (i,))
                 walkj(data, ())
                 o.put('tpjson', ' '.join(items))
-            for tid, top in h.get_dict_top_level_hogs().items():
-                o.put('tphog', ob.osS(tid) + '|' + ob.profileS(h.create_tree_profile(hog=top).treemap, pathof(top.genome.taxon)))
+            held = [(tid, top, h.create_tree_profile(hog=top)) for tid, top in h.get_dict_top_level_hogs().items()]
+            for tid, top, tph in held:      # read only after all of them exist
+                o.put('tphog', ob.osS(tid) + '|' + ob.profileS(tph.treemap, pathof(top.genome.taxon)))
         except Exception as e:      # noqa
             bad = ['tree profile raised %s: %s' % (type(e).__name__, e)]
         if bad:
@@ -515,7 +558,11 @@ def c12(tier, seed):
     n = budget(tier, 120)
     from lxml import etree
     for k in range(n):
-        D = respell(ex.rng, std_dataset(ex.rng))
+        if k % 6 == 5:
+            D = gen.deep_chain_dataset(ex.rng)      # duplications whose copies are long single-child chains
+            ex.res.count('deep_chain_cases')
+        else:
+            D = respell(ex.rng, std_dataset(ex.rng))
         cid = 'C12-%d' % k
         ex.note_dataset(D)
         h = load_or_fail(ex, cid, D)
@@ -811,6 +858,14 @@ def c20(tier, seed):
             bad = orc.c01(D, h)
             if bad:
                 ex.fail('C20-%d' % k, D, ['successful load dropped something: ' + b for b in bad])
+        # ... also when species-level groups are dissolved into their parents
+        Dw = gen.species_wrap(ex.rng, std_dataset(ex.rng, maxleaves=ex.rng.choice([3, 4, 5, 6])))
+        hw, e_ = core.try_load(Dw)
+        ex.res.count('species_level_group_files')
+        if hw is not None:
+            bad = orc.c01(Dw, hw)
+            if bad:
+                ex.fail('C20-%d-w' % k, Dw, ['successful load dropped something: ' + b for b in bad])
         for j, (kind, sp, gr) in enumerate(fault_variants(ex.rng, D, 25 if tier == 'quick' else 80)):
             cid = 'C20-%d-%d' % (k, j)
             ex.res.count('fault_' + kind)
@@ -824,6 +879,59 @@ def c20(tier, seed):
                 o.put('rejected', 'yes')
                 ex.res.count('pyham_' + kind + '_' + ob.err_name(e))
             ex.submit(cid, D, o.tags, [], groups=gr, species=sp, hist=False, extra=(kind, o))
+    # ---- the same in species_resolve_mode="OMA" (a clade named as species resolves to its only child that looks like
+    # an OMA species code; everything else as in the default mode)
+    import re as _re
+    def is_code(s):
+        return len(s) == 5 and _re.match(r'[A-Z][A-Z0-9]{4}', s) is not None
+    def oma_resolves(D, name):
+        """None = rejected, else the leaf name the species ends up at (independent of pyham and of the model)"""
+        hits = [p for p in gen.paths(D.T) if gen.display_name(D.T, p, D.naming) == name]
+        if len(hits) != 1:
+            return None
+        t = gen.sub(D.T, hits[0])
+        if not t[1]:
+            return name
+        cand = [i for i, k in enumerate(t[1]) if is_code(gen.display_name(D.T, hits[0] + (i,), D.naming))]
+        if len(cand) == 1 and not t[1][cand[0]][1]:
+            return gen.display_name(D.T, hits[0] + (cand[0],), D.naming)
+        return None
+    for k in range(budget(tier, 40)):
+        D = std_dataset(ex.rng, maxleaves=ex.rng.choice([3, 4, 5, 6, 8]))
+        if D.naming != 'own':
+            continue
+        ex.note_dataset(D)
+        internal = [gen.display_name(D.T, p, D.naming) for p in gen.paths(D.T) if gen.sub(D.T, p)[1]]
+        variants = [('oma-unchanged', D.species)]
+        for i in range(len(D.species)):
+            for nm_ in ex.rng.sample(internal, min(3, len(internal))):
+                sp = list(D.species); sp[i] = (nm_, sp[i][1]); variants.append(('oma-internal-as-species', sp))
+            sp = list(D.species); sp[i] = ('NOSUC', sp[i][1]); variants.append(('oma-unknown-species', sp))
+        for j, (kind, sp) in enumerate(variants[:12 if tier == 'quick' else 40]):
+            cid = 'C20-oma-%d-%d' % (k, j)
+            ex.res.count('fault_' + kind)
+            o = ob.Obs()
+            want_ok = all(oma_resolves(D, n_) is not None for n_, _ in sp)
+            # two species resolving to the same leaf share one genome; the model follows the code there
+            try:
+                h = core.load_py(D, species=sp, species_resolve_mode='OMA')
+                o.put('oma.load', 'ok')
+                ob.observe_load(h, o, 'oma.')
+                if not want_ok:
+                    ex.fail(cid, D, ['%s accepted in OMA mode although a species name resolves to no leaf' % kind], species=sp)
+                else:
+                    ex.res.count('oma_resolved_to_code_child', sum(1 for n_, _ in sp if oma_resolves(D, n_) != n_))
+                    got = sorted((g.unique_id, g.genome.name) for g in h.get_list_extant_genes())
+                    want = sorted((g, oma_resolves(D, n_)) for n_, genes in sp for g, _ in genes)
+                    if got != want:
+                        ex.fail(cid, D, ['OMA mode: genes attached to %s, expected %s' % (got[:6], want[:6])], species=sp)
+            except Exception as e:      # noqa
+                o.put('oma.load', 'err:' + ob.err_name(e))
+                if want_ok and kind != 'oma-unchanged':
+                    pass        # may legitimately fail later (e.g. a gene now lives at another leaf than its group says)
+                if want_ok and kind == 'oma-unchanged':
+                    ex.fail(cid, D, ['consistent file rejected in OMA mode: %s: %s' % (type(e).__name__, e)], species=sp)
+            ex.submit(cid, D, o.tags, ['oma.load', 'oma.genes', 'oma.members', 'oma.forest'], species=sp, hist=False, queries=['(oma)'], extra=None)
     def custom(cid, D, pytags, L, extra):
         out = []
         if extra is None:
